@@ -91,6 +91,9 @@ func (c *treeCtx) ownBlockAccepted(run *hx.Run, rt *chainx.RichTree, r *hx.Rng, 
 		// possible uncles: siblings of ancestors (stored as side blocks on the building node)
 		var uncleBlocks []*types.Block
 		for _, u := range rt.UncleCandidates(id) {
+			if t.Td(u).Cmp(t.Td(id)) >= 0 {
+				continue // would move (or coin-flip) the head of the building node away from the intended parent
+			}
 			if _, err := bc1.InsertChain(t.Blocks(t.PathIDs(u))); err == nil {
 				uncleBlocks = append(uncleBlocks, t.Nodes[u].Block)
 			}
